@@ -12,7 +12,9 @@ Oracle: with the real-ified matrices ``M`` of ``A`` and ``N`` of
 range taken through the library's own ``inner``:  ``N^T G_X = G_Y M``  (this
 is ``Re<Ax,y> = Re<x,A*y>`` for *all* x, y), complex-linearity of ``N`` when
 ``A`` is complex-linear between complex spaces, ``adjoint.domain/range``,
-and ``matrix(A.adjoint.adjoint) == M``.  Operands of composite operators are
+and ``matrix(A.adjoint.adjoint) == M``.  Every matrix is extracted in both call
+styles - ``op(x)`` and ``op(x, out=z)`` with a NaN-filled ``z`` - which have to
+agree (clause inplace-matrix) and both enter the Gram identity.  Operands of composite operators are
 checked first (bottom-up), so a failure is attributed to the deepest operator
 whose own adjoint rule is wrong.
 """
